@@ -176,14 +176,19 @@ def canon_array(a):
             'data': [[int(v) for v in row] for row in a]}
 
 
-def load_bytes(data, want_fcsdata=True):
-    """Load through FlowCal.io.FCSFile (and FCSData); canonical JSON-able result."""
+def load_bytes(data, want_fcsdata=True, via='name'):
+    """Load through FlowCal.io.FCSFile (and FCSData); canonical JSON-able result.  via='fileobj': an open file object is passed instead of the name."""
     path = write_tmp(data)
+    fobj = None
     try:
         with warnings.catch_warnings(record=True) as w:
             warnings.simplefilter('always')
             try:
-                f = FlowCal.io.FCSFile(path)
+                if via == 'fileobj':
+                    fobj = open(path, 'rb')
+                    f = FlowCal.io.FCSFile(fobj)
+                else:
+                    f = FlowCal.io.FCSFile(path)
             except Exception as e:
                 return {'err': type(e).__name__, 'msg': str(e)[:120]}
             res = canon_array(f.data)
@@ -202,6 +207,8 @@ def load_bytes(data, want_fcsdata=True):
                     res['fcsdata_err'] = type(e).__name__ + ':' + str(e)[:80]
             return res
     finally:
+        if fobj is not None:
+            fobj.close()
         os.unlink(path)
 
 
